@@ -1012,6 +1012,9 @@ pub fn run(ctx: &Ctx) -> i32 {
         };
         let r = run_isolated(ctx, space, total, chunk, &[tier.clone()], space == "soups", &describe);
         rep.absorb(space, r);
+        if std::env::var("C08_TIMING").is_ok() {
+            eprintln!("[C08] {} done at {:.1}s ({} cases)", space, ctx.start.elapsed().as_secs_f64(), total);
+        }
     }
     // growth oracle
     let describe = |_: u64| -> (String, String) { ("growth".to_string(), "kind: growth\n".to_string()) };
